@@ -10,6 +10,7 @@ vars == <<l, viol, done>>
 
 Bad(ev) ==
   IF ev.kind = "scalar" THEN ev.res # (IF Acc(ev.term, ev.x) THEN 1 ELSE 0)
+  ELSE IF ev.kind = "desc" THEN ev.dop # ev.term.k \/ ev.dv # ev.term.v      \* a comparison matcher describes itself by its own operator and value
   ELSE ~((ev.res = 1) \in RAcc(ev.term, ev.x.r))
 
 TraceInit == l = 1 /\ viol = <<>> /\ done = FALSE
